@@ -49,6 +49,24 @@ package isaacstates
 //@   requires forall(string(k), mhas(box.vrs, k) ==> mval(box.vrs, k, *voterecords) != nil)
 //@   callsite RemoveValue requires a0 == vrkey(vr.sp, vr.isc)
 //@   hof Traverse#0 loop invariant forall(k, 0 <= k && k < len(removed) ==> removed[k] != nil)
+// released exactly once: records are stored under their own key (I1), a record
+// waiting for release is no longer stored (I2); after clean the waiting list
+// holds only records that were stored when clean started, so none of those
+// released by this call
+//@   requires box.removed.isempty ==> box.removed.value == nil
+//@   requires forall(string(k), mhas(box.vrs, k) ==> k == vrkey(mval(box.vrs, k, *voterecords).sp, mval(box.vrs, k, *voterecords).isc))
+//@   requires forall(q, string(k), 0 <= q && q < len(box.removed.value) && mhas(box.vrs, k) ==> mval(box.vrs, k, *voterecords) != box.removed.value[q])
+//@   hof Traverse#0 loop invariant removed == nil || private(removed)
+//@   hof Traverse#0 loop invariant forall(q, j, 0 <= q && q < len(removed) && 0 <= j && j < len(old(box.removed.value)) ==> removed[q] != old(box.removed.value[j]))
+//@   hof Traverse#0 loop invariant forall(q, 0 <= q && q < len(removed) ==> mhas(box.vrs, vrkey(removed[q].sp, removed[q].isc)) && mval(box.vrs, vrkey(removed[q].sp, removed[q].isc), *voterecords) == removed[q])
+//@   ensures [fresh-pending] forall(q, j, 0 <= q && q < len(box.removed.value) && 0 <= j && j < len(old(box.removed.value)) ==> box.removed.value[q] != old(box.removed.value[j]))
+//@ func (*Ballotbox).clean$1
+//@   inline
+//@   loop 1 invariant forall(q, j, 0 <= q && q < len(removed) && 0 <= j && j < len(old((*box).removed.value)) ==> removed[q] != old((*box).removed.value[j]))
+//@   loop 0 invariant forall(string(k), mhas((*box).vrs, k) ==> mval((*box).vrs, k, *voterecords) != nil && k == vrkey(mval((*box).vrs, k, *voterecords).sp, mval((*box).vrs, k, *voterecords).isc))
+//@   loop 0 invariant forall(q, string(k), 0 <= q && q < len(removed) && mhas((*box).vrs, k) ==> mval((*box).vrs, k, *voterecords) != removed[q])
+//@   loop 0 invariant forall(q, 0 <= q && q < len(removed) ==> removed[q] != nil)
+//@   loop 1 invariant forall(q, 0 <= q && q < len(removed) ==> removed[q] != nil && pre(mhas((*box).vrs, vrkey(removed[q].sp, removed[q].isc))) && pre(mval((*box).vrs, vrkey(removed[q].sp, removed[q].isc), *voterecords)) == removed[q])
 
 // ---- C08: the local node never equivocates (choke point) ---------------------------
 //
